@@ -17,6 +17,17 @@ def quoted(G, name):
     return a + core + b, core
 
 
+# a dotted path quoted as a whole (`proj.sales.orders`) reaches the identity functions in pieces that carry HALF a
+# delimiter pair (`proj / sales / orders`): the identity of a name ignores delimiter characters wherever they stand
+ANY_QUOTES = QUOTES + [('"', ""), ("", '"'), ("`", ""), ("", "`"), ("[", ""), ("", "]")]
+
+
+def quoted_any(G, name):
+    core = G.str(name + ".core", CORE, "Tbl")
+    a, b = ANY_QUOTES[G.choice(name + ".style", len(ANY_QUOTES))]
+    return a + core + b, core
+
+
 @contract
 class NormalizeName:
     fn = "utils.normalize_name"
@@ -24,7 +35,7 @@ class NormalizeName:
     cases = {"any-quoting-style": {}}
 
     def build(G, case):
-        full, core = quoted(G, "n")
+        full, core = quoted_any(G, "n")
         return dict(args=[full], ghost=dict(core=core))
 
     def spec(case, name):
@@ -39,9 +50,9 @@ class GetTableId:
     cases = {"with-schema": dict(schema=True), "without-schema": dict(schema=False)}
 
     def build(G, case):
-        tfull, tcore = quoted(G, "t")
+        tfull, tcore = quoted_any(G, "t")
         if case["schema"]:
-            sfull, score = quoted(G, "s")
+            sfull, score = quoted_any(G, "s")
         else:
             sfull = [None, ""][G.choice("s.empty", 2)]
         return dict(args=[sfull, tfull])
